@@ -133,6 +133,9 @@ def eval_expression(expression: ExpressionAstNode, resolver: Resolver) -> int:
             elif current.token.value == ">>":
                 r = v1 >> v2
             elif current.token.value == "<<":
+                if v2 >= 0x10000:
+                    # a count like 31 * 0x100000000 would make the interpreter build an integer of gigabytes
+                    raise RuntimeError(f"shift count {v2:#x} is too large")
                 r = v1 << v2
             else:
                 raise RuntimeError("operator unknown")
